@@ -234,6 +234,11 @@ pub fn run(run: &Run) {
     for j in 0..=48 {
         xs.push(1e-6 * 10f64.powf(j as f64 / 4.0));
     }
+    // arguments next to 1, where x^λ − 1 cancels for every λ (the value is small, not its accuracy)
+    for d in [1.1102230246251565e-16, 2.220446049250313e-16, 1e-12, 1e-9, 1e-6, 1e-4, 1e-2] {
+        xs.push(1.0 + d);
+        xs.push(1.0 - d);
+    }
     let lams: [f64; 17] = [0.0, 1e-12, -1e-12, 1e-9, -1e-9, 1e-4, -1e-4, 0.5, -0.5, 1.0, -1.0, 2.0, -2.0, 5.0, -5.0, 0.3, -3.3];
     let shifts: [f64; 6] = [-0.5, 0.0, 0.5, 10.0, -3.0, 1.0];
     let bc_ref = |x: f64, lam: f64| -> f64 {
@@ -251,7 +256,8 @@ pub fn run(run: &Run) {
             run.ok();
             run.nontrivial(1);
             let want = bc_ref(x, lam);
-            let tol = 1e-9 * want.abs().max(1.0);
+            // eight digits, relative to the value (which is small next to x = 1)
+            let tol = 1e-9 * want.abs() + 1e-300;
             match guard(|| boxcox(x, lam)) {
                 Ok(g) => {
                     if !((g - want).abs() <= tol) {
@@ -273,7 +279,7 @@ pub fn run(run: &Run) {
                     match (in_domain, guard(|| boxcox_shifted(xv, lam, sh))) {
                         (true, Ok(g)) => {
                             let want = bc_ref(xv + sh, lam);
-                            let tol = 1e-9 * want.abs().max(1.0);
+                            let tol = 1e-9 * want.abs() + 1e-300;
                             if !((g - want).abs() <= tol) {
                                 run.violate(&format!("boxcox_shifted/{}/value", lcls), || format!("boxcox_shifted({:e}, {:e}, {}) = {:e}, want {:e}", xv, lam, sh, g, want));
                             } else {
